@@ -155,6 +155,16 @@ func c14RunFrames(c *h.Ctx, bucket string, k c14Case, cuts bool) {
 		c.Case(bucket+"/bad-deflate", in, true)
 		return
 	}
+	// With deflate negotiated an RSV1 message is STREAMED through compress/flate (a parameter of the model): when
+	// the inflater itself rejects the payload mid-message — before the reader ever looks at the frame on which the
+	// model/spec would have failed (e.g. the one exceeding the read limit) — there is nothing to compare the end
+	// state with. What must still hold: no panic, an error, only whole earlier messages, the read limit.
+	if k.deflate && (impl.err == "flate" || impl.err == "io-ueof") {
+		c.Hold(!impl.panicky && hasPrefixList(mm, impl.msgs), "inflate_error", tin, impl.String(), "an error after a prefix of the model's messages")
+		c14Limit(c, k.limit, k.deflate, model["msgs"], impl, tin)
+		c.Case(bucket+"/inflate-error", in, true)
+		return
+	}
 	mo := wsReadOut{msgs: mm, err: model["err"], replies: model["replies"], sticky: model["sticky"] == "1"}
 	mo.partial, _ = strconv.Atoi(model["partial"])
 	if k.deflate {
